@@ -1418,7 +1418,7 @@ def attribute(base, adv, rec0, sites, res, findings):
                               {"kind": "independent", "base": base, "adv": single}, observed=obs, expected=exp)
     for site, kind, obs, exp in findings:
         if (site, kind) in left:
-            res.violation("C19:%s:%s:combination" % (site, kind), WHAT[kind] + " (only several arguments together)",
+            res.violation(unattributed_signature("C19:%s:%s:" % (site, kind), "C19:%s:%s:combination" % (site, kind)), WHAT[kind] + " (only several arguments together)",
                           {"kind": "independent", "base": base, "adv": adv}, observed=obs, expected=exp)
 
 
@@ -1625,6 +1625,24 @@ def _compound_run(kind, ids):
 COMPOUND_IDS = ["cbm_graph_id", "adm_graph_id", "node_id_1", "node_id_2", "name"]
 
 
+_KNOWN_PREFIX_CACHE = {}
+
+
+def unattributed_signature(prefix, fallback):
+    """A leak / defect at `prefix` = 'C19:<site>:<kind>:' that could not be attributed to one argument (the single-argument re-runs
+    did not reproduce it, e.g. because a rewrite changed how many statements a call issues).  If the site already has a listed
+    finding of that kind, it is the same root cause at the same call site: report it under that listed signature instead of inventing
+    an unlisted '...combination' one (a NEW value reaching a listed site changes the generated template and breaks
+    leaked_values_exact, so it is not hidden by this)."""
+    if not _KNOWN_PREFIX_CACHE:
+        import core as _core
+        for k in _core.load_known("C19"):
+            if k.get("status") == "known":
+                _KNOWN_PREFIX_CACHE.setdefault(":".join(k["signature"].split(":")[:3]) + ":", k["signature"])
+        _KNOWN_PREFIX_CACHE.setdefault("", "")
+    return _KNOWN_PREFIX_CACHE.get(prefix, fallback)
+
+
 def compound_diff(kind, benign, ids, rec0, sites, res):
     """one compound run with `ids` against the benign run; leaks are attributed to the single id that causes them"""
     rec, _, e = _compound_run(kind, ids)
@@ -1650,7 +1668,7 @@ def compound_diff(kind, benign, ids, rec0, sites, res):
                     break
     for site, k, obs, exp in findings:
         if (site, k) in left:
-            res.violation("C19:%s:%s:%s.combination" % (site, k, kind.partition(":")[0]), WHAT[k],
+            res.violation(unattributed_signature("C19:%s:%s:" % (site, k), "C19:%s:%s:%s.combination" % (site, k, kind.partition(":")[0])), WHAT[k],
                           {"kind": "compound", "op": kind, "ids": list(ids), "base_ids": list(benign)}, observed=obs, expected=exp)
 
 
